@@ -121,7 +121,7 @@ def line_oracle(c, stim, lane, which):
 def sta_window(c, delays_ds, stim, lane, strip_forks=False):
     """earliest / latest possible transition time per line by static timing analysis (None = no transition possible)"""
     sn = evaln.s_nodes(c)
-    sidx = {id(n): i for i, n in enumerate(sn)}
+    sidx = evaln.Eval(c, {}, 2).sidx          # stimulus positions (a port fork with an input line is an output only)
     win = {}
 
     def node_window(n, pin):
